@@ -1583,6 +1583,13 @@ def c18(res, rng, tier, replay=None):
         gcmds.append('mm %s %s' % (hx(esc), ' '.join(hx(p) for p in [s] + muts)))
         keep.append((s, esc, muts))
     outs = W.run_impl(gcmds)
+    # the objects of the end-to-end theorem are the code's objects: token tree, program and text of every escaped glob
+    mouts = W.run_model([c for c in gcmds if c.startswith('glob ')])
+    for i, (s, esc, muts) in enumerate(keep):
+        ih, if_ = W.fields(outs[2 * i])
+        mh, mf_ = W.fields(mouts[i])
+        if ih != mh or any(if_.get(k) != mf_.get(k) for k in ('tree', 're', 'text')):
+            res.tie_fail('C18 the glob built from the escaped string differs from the model', {'text': s, 'escaped': esc, 'impl': outs[2 * i][:300], 'model': mouts[i][:300]})
     for i, (s, esc, muts) in enumerate(keep):
         g_, m_ = outs[2 * i], outs[2 * i + 1]
         h, f = W.fields(g_)
